@@ -299,6 +299,33 @@ func c14Sweep(seed uint64, tier string, build string, emit func(op, obs string),
 					l.SetSkip(skip)
 				}
 			}
+			// WithSkip(n) with n equal to the receiver's own skip count still gives a logger of its own:
+			// a later SetSkip on it does not move the attribution of records issued through the receiver
+			if kind != "default" {
+				base.SetSkip(0)
+				twin := base.WithSkip(0).SetWriter(rec).SetErrorWriter(rec)
+				twin.SetSkip(2)
+				cc := &c14ctx{l: base, ctx: ctx, msg: "m"}
+				rec.take()
+				c14w4(cc, c14calls[4].f) // l.Info
+				o := c14Observe(cc, rec, format)
+				emit(fmt.Sprintf("C14 v l Info 0 0 %d", len(cc.frames)), o.frame)
+				seen(fmt.Sprintf("%s|%s|%s|withskip-same-n", build, format, kind))
+				if o.frame != "user[0]" {
+					violate(violation{What: "SetSkip on the logger returned by WithSkip(n) moved the attribution of the logger it was derived from",
+						Input:    map[string]any{"build": build, "format": format, "logger": kind, "sequence": "base.SetSkip(0); twin := base.WithSkip(0); twin.SetSkip(2); base.Info(...)"},
+						Expected: "user[0]", Actual: o.frame + " in " + o.payload})
+				}
+				cc.l = twin
+				rec.take()
+				c14w4(cc, c14calls[4].f)
+				o = c14Observe(cc, rec, format)
+				emit(fmt.Sprintf("C14 v l Info 0 2 %d", len(cc.frames)), o.frame)
+				if o.frame != "user[2]" {
+					violate(violation{What: "the logger returned by WithSkip(n) does not follow its own SetSkip",
+						Input: map[string]any{"build": build, "format": format, "logger": kind}, Expected: "user[2]", Actual: o.frame + " in " + o.payload})
+				}
+			}
 			// two logical functions in one physical function (when the helper is inlined)
 			base.SetSkip(0)
 			c := &c14ctx{l: base, ctx: ctx, msg: "m"}
